@@ -54,7 +54,7 @@ class SmallCache(kvfile.KVFile):
 
 
 def run_sort(kind, vals, keyform, reverse, batch_size, small_cache):
-    rows = [{'f': v, 'g': (len(vals) - i) % 2, 'id': i} for i, v in enumerate(vals)]
+    rows = [{'f': v, 'g': 5 if keyform == 'format2' else (len(vals) - i) % 2, 'id': i} for i, v in enumerate(vals)]
     st = mkstate([('t', [('f', 'number' if kind == 'num' else 'string'), ('g', 'integer'), ('id', 'integer')], rows),
                   ('other', [('f', 'string')], [{'f': 'z'}, {'f': 'a'}])])
     m = core.mod('dataflows.processors.sort_rows')
